@@ -9,6 +9,7 @@ import (
 	"os"
 	"path/filepath"
 	"runtime"
+	"runtime/debug"
 	"sort"
 	"sync"
 
@@ -150,6 +151,7 @@ func runDvVisit(walksPath, tablesPath, dir, outPath string, quick bool) {
 		for k := 0; k < nw; k++ {
 			wg.Add(1)
 			go func(k int) {
+				debug.SetPanicOnFault(true)
 				defer wg.Done()
 				var ld []dvDiff
 				lr := 0
